@@ -312,6 +312,11 @@ func TestDrive(t *testing.T) {
 			base := filepath.Join(root, fmt.Sprintf("c%d-%s", ci, sub))
 			os.MkdirAll(base, 0o755)
 			src := filepath.Join(base, "input", name)
+			if sub == "b" {
+				// the second copy of the tree lies in a directory of another name (it is added under the same name):
+				// where the tree happens to lie on disk is not part of the tree
+				src = filepath.Join(base, "input", []string{"copy-of-", "копия-木-"}[ci%2]+name)
+			}
 			os.MkdirAll(filepath.Dir(src), 0o755)
 			if err := materialise(src, append([]Obj(nil), objs...), mtime); err != nil {
 				t.Fatal(err)
